@@ -308,7 +308,8 @@ def eval_monad_range(a, backend):
             s = set()
             arr = []
             for x in a:
-                sx = str(x)
+                # the text alone cannot tell 0c0 from 0 or :a from "a"
+                sx = (type(x).__name__ if isinstance(x, str) else '', str(x))
                 if sx not in s:
                     s.add(sx)
                     arr.append(x)
